@@ -9,11 +9,16 @@ def regen_imports():
     return t, core.write_if_changed(core.LEAN / "CddVerif" / "Gen" / "Imports.lean", t.to_lean())
 
 
+OTHERS: list = []  # filled by regen_loops (the third table of Gen/Loops.lean)
+
+
 def regen_loops():
-    from harness.translators.loops import scan, to_lean
+    from harness.translators.loops import scan, scan_others, to_lean
 
     w, r = scan(core.REPO)
-    return (w, r), core.write_if_changed(core.LEAN / "CddVerif" / "Gen" / "Loops.lean", to_lean(w, r))
+    o = scan_others(core.REPO)
+    OTHERS[:] = o
+    return (w, r), core.write_if_changed(core.LEAN / "CddVerif" / "Gen" / "Loops.lean", to_lean(w, r, o))
 
 
 def regen_setiter():
